@@ -9,6 +9,7 @@ def tasks(run):
         for e in ('add_metric', 'add_lmi', 'new_iterate', 'add_constraint'):
             out.append(('resolve', (name, seed, e)))
     out += [('resolve_none', (run.seed + i,)) for i in range(2)]
+    out += [('resolve_replaced', (run.seed + i,)) for i in range(3)]         # replaced (not only added) constraints / LMIs, function-level constraints
     out += [('resolve', ('T_qg', v, 'add_metric')) for v in range(4)]        # minimiser declared first / last / created by the class (two classes) at the first solve
     out += [('dual_tables', (name, seed, True)) for (name, seed) in models.programs(run.seed + 1, 12)]      # tables / multipliers of the LATEST solve
     return out
